@@ -54,6 +54,12 @@ func c16Scenario() {
 	for ch := byte(0); ch < 16; ch++ {
 		verifrt.Protect(d.activeNotesCounter[ch], d.eventProcessMutex)
 	}
+	// the MIDI-input highlight set is written by the MIDI-input goroutine and replaced by the panic action of the
+	// event goroutine: every access needs its mutex
+	verifrt.ProtectRW(d.externalNoteTracker, d.externalTrackerMutex)
+	for ch := byte(0); ch < 16; ch++ {
+		verifrt.ProtectRW(d.externalNoteTracker[ch], d.externalTrackerMutex)
+	}
 	in := make(chan *input.InputEvent, 4)
 	held := [2]bool{}
 	codes := [2]evdev.EvCode{evdev.KEY_A, evdev.KEY_S}
@@ -93,6 +99,23 @@ func c16Scenario() {
 			verifrt.Jitter()
 			midiIn <- midi.NoteEvent(midi.NoteOn, 3, 64, 100)
 		}()
+		if !verifrt.Symbolic() {
+			// native stand-in for the other writer of the highlight set (what the panic action does: replace it
+			// under its mutex), so that an unsynchronised access of the MIDI-input goroutine becomes a data race
+			// the race detector can see
+			go func() {
+				for i := 0; i < 50 && !finished; i++ {
+					fresh := make(map[byte]map[byte]bool, 16)
+					for ch := byte(0); ch < 16; ch++ {
+						fresh[ch] = make(map[byte]bool)
+					}
+					d.externalTrackerMutex.Lock()
+					d.externalNoteTracker = fresh
+					d.externalTrackerMutex.Unlock()
+					verifrt.Jitter()
+				}
+			}()
+		}
 	}
 	verifrt.RunConcurrent(k, nil)
 	quiet := !verifrt.AnyEnabled() || !verifrt.Symbolic()
